@@ -20,13 +20,14 @@ Local Open Scope N_scope.
    (fault placement: failed / partial / lying append, disk full, failed fsync, failed
    create, failed delete, in any number and position) and every crash instant (prefix
    lengths n, m): every write acked Ok whose stamp is above every watermark the actor was
-   asked to truncate to is returned by recovery.  (The stamp of write w is w; entries
+   asked to truncate to is returned by recovery.  (A write is named w = stamp * 1024 + serial,
+   [stamp w] = w / 1024 is the timestamp of its entry: stamps may repeat; entries
    stamped <= a watermark have been streamed to the object store and may be deleted.) *)
 Theorem C09_acked_survive :
   forall (max_file_size max_entries : N) (sched : list sched_item) (io : list outcome) (n m : nat),
   let a := run (Config Repaired max_file_size max_entries) (firstn n sched) (firstn m io) in
   forall w, In w (acked_ok a) ->
-  (forall t, In (STruncate t) (firstn n sched) -> t < w) ->
+  (forall t, In (STruncate t) (firstn n sched) -> t < stamp w) ->
   In w (recover_all (crash (s_store a))).
 Proof. intros mf me sched io n m. exact (acked_survive_prefix (Config Repaired mf me) sched io n m eq_refl). Qed.
 Print Assumptions C09_acked_survive.
@@ -53,7 +54,7 @@ Print Assumptions C09_acked_survive_unless_truncated.
 
 Theorem C09_truncation_releases_only_below_watermark :
   forall (cfg : config) (sched : list sched_item) (io : list outcome) (w : N),
-  In w (s_released (run cfg sched io)) -> exists t, In (STruncate t) sched /\ w <= t.
+  In w (s_released (run cfg sched io)) -> exists t, In (STruncate t) sched /\ stamp w <= t.
 Proof. exact released_below_watermark. Qed.
 Print Assumptions C09_truncation_releases_only_below_watermark.
 
@@ -77,7 +78,7 @@ Theorem C09_acked_survive_restarts :
          (hist : list ((N -> nat) * list sched_item * list outcome)) (keep : N -> nat),
   let a := run_incarnations (Config Repaired max_file_size max_entries) hist in
   forall w, In w (acked_ok a) ->
-    (forall k sched io t, In (k, sched, io) hist -> In (STruncate t) sched -> t < w) ->
+    (forall k sched io t, In (k, sched, io) hist -> In (STruncate t) sched -> t < stamp w) ->
     In w (recover_all (crash (s_store a))) /\ In w (recover_all (crash_keep keep (s_store a))).
 Proof. intros mf me hist keep. exact (acked_survive_restarts_watermark (Config Repaired mf me) hist keep eq_refl). Qed.
 Print Assumptions C09_acked_survive_restarts.
@@ -148,11 +149,20 @@ Print Assumptions C09_nonvacuous_restarts.
 
 (* Truncation with out-of-order stamps inside a closed file. *)
 Example C09_nonvacuous_truncation :
-  acked_ok (run repaired_cfg (tr_sched 3) (repeat OOk 20)) = [9; 3; 1; 5] /\
+  acked_ok (run repaired_cfg (tr_sched 3) (repeat OOk 20)) = [wid 9 4; wid 3 3; wid 1 2; wid 5 1] /\
   s_released (run repaired_cfg (tr_sched 3) (repeat OOk 20)) = [] /\
-  recover_all (crash (s_store (run repaired_cfg (tr_sched 3) (repeat OOk 20)))) = [5; 1; 3; 9] /\
-  s_released (run repaired_cfg (tr_sched 5) (repeat OOk 20)) = [5; 1; 3] /\
-  recover_all (crash (s_store (run repaired_cfg (tr_sched 5) (repeat OOk 20)))) = [9] /\
+  recover_all (crash (s_store (run repaired_cfg (tr_sched 3) (repeat OOk 20)))) = [wid 5 1; wid 1 2; wid 3 3; wid 9 4] /\
+  s_released (run repaired_cfg (tr_sched 5) (repeat OOk 20)) = [wid 5 1; wid 1 2; wid 3 3] /\
+  recover_all (crash (s_store (run repaired_cfg (tr_sched 5) (repeat OOk 20)))) = [wid 9 4] /\
   s_halt (run repaired_cfg (tr_sched 5) (repeat OOk 20)) = false.
 Proof. exact example_truncation. Qed.
 Print Assumptions C09_nonvacuous_truncation.
+
+(* Equal stamps: four different writes stamped 7 (one per file, so a rotation lies between
+   every adjacent pair) and one stamped 6 - all acked, all recovered, in order. *)
+Example C09_nonvacuous_equal_stamps :
+  acked_ok (run (Config Repaired 101 8) eq_sched (repeat OOk 40)) = [wid 6 5; wid 7 4; wid 7 3; wid 7 2; wid 7 1] /\
+  recover_all (crash (s_store (run (Config Repaired 101 8) eq_sched (repeat OOk 40)))) = [wid 7 1; wid 7 2; wid 7 3; wid 7 4; wid 6 5] /\
+  map fst (s_store (run (Config Repaired 101 8) eq_sched (repeat OOk 40))) = [1; 2; 3; 4; 5].
+Proof. exact example_equal_stamps. Qed.
+Print Assumptions C09_nonvacuous_equal_stamps.
